@@ -24,7 +24,7 @@
 From Coq Require Import ZArith List Bool.
 Require Import JV.Base.PyPrelude JV.Model.FilterArgs
                JV.Proofs.FilterArgsBase JV.Proofs.FilterArgs JV.Proofs.FilterArgsIgnore JV.Proofs.FilterArgsWitness
-               JV.Proofs.FilterArgsCanon.
+               JV.Proofs.FilterArgsCanon JV.Proofs.FilterArgsExact JV.Model.FuncName JV.Proofs.FuncName.
 Import ListNotations.
 Open Scope Z_scope.
 
@@ -108,6 +108,91 @@ Proof.
   exact (ignore_removes s None c ign (canon s b) (agree_partial s c b Hwf Hc Hf Hb) Hnd Hin).
 Qed.
 Print Assumptions C07_agree_ignore_partial.
+
+(* EXACT characterisation: when the defaults of the signature are pairwise distinct values (so that a wrong
+   default is visibly wrong), the code agrees with Python on an accepted call IF AND ONLY IF the call lies in
+   the fragment -- outside it the model never returns the canonical dict (a missing key for a positional-only
+   parameter, ValueError for surplus positionals next to keyword-only parameters, another parameter's default
+   or ValueError for an omitted default that is followed by a required parameter) *)
+Theorem C07_agree_iff : forall s c b,
+  wf_sig s -> wf_call c -> NoDup (flat_map dflt s) ->
+  py_bind s c = Some b ->
+  (filter_args_model s [] None c = Ok (canon s b) <-> in_fragment s c = true).
+Proof. exact agree_iff. Qed.
+Print Assumptions C07_agree_iff.
+
+(* ignored entries do not influence the result: two calls whose (un-ignored) results have the same keys and
+   differ at most under ignored keys get the same result -- hence the same cache key -- with the ignore list,
+   whatever the signature, the call shapes and the kind of the ignored names (positional, keyword, '*', '**') *)
+Theorem C07_ignore_noninterference : forall s meth c1 c2 ign d1 d2,
+  filter_args_model s [] meth c1 = Ok d1 -> filter_args_model s [] meth c2 = Ok d2 ->
+  agree_outside ign d1 d2 ->
+  filter_args_model s ign meth c1 = filter_args_model s ign meth c2.
+Proof. exact ignore_noninterference. Qed.
+Print Assumptions C07_ignore_noninterference.
+
+(* ... and everything that is not ignored is preserved: equal results with the ignore list force equal
+   un-ignored entries *)
+Theorem C07_ignore_preserves_rest : forall s meth c1 c2 ign d1 d2 r,
+  filter_args_model s [] meth c1 = Ok d1 -> filter_args_model s [] meth c2 = Ok d2 ->
+  filter_args_model s ign meth c1 = Ok r -> filter_args_model s ign meth c2 = Ok r ->
+  forall k v, ~ In k ign -> (In (k, v) d1 <-> In (k, v) d2).
+Proof. exact ignore_preserves_rest. Qed.
+Print Assumptions C07_ignore_preserves_rest.
+
+(* ---------------------------------------------------------------- get_func_name / the function identifier (M2b) *)
+(* for an ordinary callable (module given and not "__main__", __name__ = last segment of __qualname__, no empty
+   or "/"-containing segment) Memory's identifier is the dotted path module.qualname with "/" for "." *)
+Theorem C07_func_id_ordinary : forall f m q,
+  ordinary f m q -> Forall clean (split_on DOT (dotted_path m q)) ->
+  func_id_model f = join [SLASH] (split_on DOT (dotted_path m q)).
+Proof. exact func_id_ordinary. Qed.
+Print Assumptions C07_func_id_ordinary.
+
+(* exact collision class of ordinary callables: same dotted path, nothing else *)
+Theorem C07_func_id_collision_iff : forall f1 m1 q1 f2 m2 q2,
+  ordinary f1 m1 q1 -> ordinary f2 m2 q2 ->
+  Forall clean (split_on DOT (dotted_path m1 q1)) -> Forall clean (split_on DOT (dotted_path m2 q2)) ->
+  (func_id_model f1 = func_id_model f2 <-> dotted_path m1 q1 = dotted_path m2 q2).
+Proof. exact func_id_collision_iff. Qed.
+Print Assumptions C07_func_id_collision_iff.
+
+(* the identifier is a function of (__module__, __name__, __qualname__, source file of a __main__ function):
+   code, closure cells, bound arguments of a partial never enter it *)
+Theorem C07_func_id_ignores_identity : forall f1 f2,
+  f_module f1 = f_module f2 -> f_name f1 = f_name f2 -> f_qualname f1 = f_qualname f2 ->
+  f_sourcefile f1 = f_sourcefile f2 -> func_id_model f1 = func_id_model f2.
+Proof. exact func_id_ignores_identity. Qed.
+Print Assumptions C07_func_id_ignores_identity.
+
+(* injectivity on (module, qualname) pairs is false: function f of module pkg.mod vs method f of class mod in pkg *)
+Theorem C07_func_id_refuted_module_boundary :
+  f_module w_mod1 <> f_module w_mod2 /\ f_qualname w_mod1 <> f_qualname w_mod2
+  /\ func_id_model w_mod1 = func_id_model w_mod2.
+Proof. exact module_boundary_collision. Qed.
+Print Assumptions C07_func_id_refuted_module_boundary.
+
+(* two different closures of one factory (or two functions behind one decorator without functools.wraps, two
+   lambdas, two partial objects) share the identifier; replayed on the code, where Memory then serves one's
+   cached value for the other *)
+Theorem C07_func_id_refuted_closure :
+  f_identity w_clo1 <> f_identity w_clo2 /\ func_id_model w_clo1 = func_id_model w_clo2.
+Proof. exact closure_collision. Qed.
+Print Assumptions C07_func_id_refuted_closure.
+
+(* scripts /a-b/c.py and /a/b-c.py run as __main__ share identifiers *)
+Theorem C07_func_id_refuted_main_path :
+  f_sourcefile w_main1 <> f_sourcefile w_main2 /\ func_id_model w_main1 = func_id_model w_main2.
+Proof. exact main_path_collision. Qed.
+Print Assumptions C07_func_id_refuted_main_path.
+
+(* the IPython cell number N of "<ipython-input-N-XYZ>" never influences the identifier (re-running a cell
+   keeps its cache), for every directory, every N and every hash part XYZ *)
+Theorem C07_ipython_cell_number_irrelevant : forall dir n1 n2 x,
+  sep_free SLASH n1 -> sep_free DASH n1 -> sep_free SLASH n2 -> sep_free DASH n2 -> sep_free SLASH x ->
+  mangle_filename (ipython_cell dir n1 x) = mangle_filename (ipython_cell dir n2 x).
+Proof. exact ipython_cell_number_irrelevant. Qed.
+Print Assumptions C07_ipython_cell_number_irrelevant.
 
 (* ---------------------------------------------------------------- refutations (known findings) *)
 (* [agrees s self c] is the full-strength statement at one signature and call (Proofs/FilterArgsWitness.v) *)
